@@ -11,9 +11,10 @@ set_option linter.unusedSimpArgs false
 variable {σ : Type} [Probe σ]
 
 /-- ghost view of one call of run()/resume()/step(n): the deliveries it makes, in order, each with
-    the engine state right after it (what `_check_breakpoints` looks at).  Same recursion as
-    `ctlLoop`. -/
-def ctlDelivs (m : Machine σ) (endT : Option Nat) : Nat → St σ → Ctl → List (St σ × Ev)
+    the engine state right after it and the breakpoints registered at that moment — those of the
+    start of the call plus what on_event hooks have added since, the hooks of this very delivery
+    included (what `_check_breakpoints` looks at).  Same recursion as `ctlLoop`. -/
+def ctlDelivs (m : Machine σ) (endT : Option Nat) : Nat → St σ → Ctl → List ((St σ × Ev) × List Bp)
   | 0, _, _ => []
   | fuel+1, s, c =>
     if !loopCond endT s then []
@@ -28,10 +29,11 @@ def ctlDelivs (m : Machine σ) (endT : Option Nat) : Nat → St σ → Ctl → L
         if s'.processed == s.processed then ctlDelivs m endT fuel s' c
         else
           let c1 := { c with steps := c.steps.map (· - 1),
-                             pauseReq := c.pauseReq || c.pauseAt.contains s'.processed }
+                             pauseReq := c.pauseReq || c.pauseAt.contains s'.processed,
+                             bps := c.bps ++ added c s'.processed }
           let hits := c1.bps.filter (Bp.hit s' e)
-          if hits.isEmpty then (s', e) :: ctlDelivs m endT fuel s' c1
-          else [(s', e)]
+          if hits.isEmpty then ((s', e), c1.bps) :: ctlDelivs m endT fuel s' c1
+          else [((s', e), c1.bps)]
 
 /-- does some registered breakpoint fire on this delivery? -/
 def fires (bps : List Bp) (p : St σ × Ev) : Prop := ∃ b ∈ bps, b.hit p.1 p.2 = true
@@ -44,40 +46,54 @@ theorem filter_isEmpty_iff_not_fires (bps : List Bp) (p : St σ × Ev) :
   · intro h b hb hh; exact h ⟨b, hb, hh⟩
 
 /-- the result of a call, described together with its deliveries; everything below is read off it -/
-structure CallFacts (bps : List Bp) (D : List (St σ × Ev)) (r : St σ × Ctl × Outcome) : Prop where
-  /-- a delivery on which a registered breakpoint fires is the last delivery of the call, the call
-      comes back paused in the state right after it, and exactly the one-shot breakpoints that
-      fired on it are unregistered -/
-  first : ∀ pre p post, D = pre ++ p :: post → fires bps p →
-      post = [] ∧ r.2.2 = .paused ∧ r.1 = p.1 ∧
-      r.2.1.bps = bps.filter (fun b => !(b.hit p.1 p.2 && b.oneShot))
-  /-- if no delivery fired a breakpoint, the registered breakpoints are untouched and a pause can
-      only come from a pause request or an exhausted step budget -/
-  quiet : (∀ p ∈ D, ¬ fires bps p) →
-      r.2.1.bps = bps ∧ (r.2.2 = .paused → shouldPause r.2.1 = true)
+structure CallFacts (bps : List Bp) (addAt : List (Nat × Bp)) (D : List ((St σ × Ev) × List Bp))
+    (r : St σ × Ctl × Outcome) : Prop where
+  /-- a delivery on which a breakpoint registered at that moment fires is the last delivery of the
+      call, the call comes back paused in the state right after it, and exactly the one-shot
+      breakpoints that fired on it are unregistered -/
+  first : ∀ pre x post, D = pre ++ x :: post → fires x.2 x.1 →
+      post = [] ∧ r.2.2 = .paused ∧ r.1 = x.1.1 ∧
+      r.2.1.bps = x.2.filter (fun b => !(b.hit x.1.1 x.1.2 && b.oneShot))
+  /-- if no delivery fired a breakpoint, every breakpoint registered at the start of the call still is
+      (hooks may have added more) and a pause can only come from a pause request or an exhausted
+      step budget -/
+  quiet : (∀ x ∈ D, ¬ fires x.2 x.1) →
+      (∀ b ∈ bps, b ∈ r.2.1.bps) ∧ (r.2.2 = .paused → shouldPause r.2.1 = true)
+  /-- the registry only grows while nothing fires: what was registered at the start of the call is
+      registered at every delivery of the call -/
+  grow : ∀ x ∈ D, ∀ b ∈ bps, b ∈ x.2
+  /-- … and a breakpoint that a hook adds on a delivery (`processed = k`) is in force for that very delivery -/
+  hooked : ∀ x ∈ D, ∀ a ∈ addAt, a.1 = x.1.1.processed → a.2 ∈ x.2
 
 theorem callFacts (m : Machine σ) (endT : Option Nat) (fuel : Nat) (s : St σ) (c : Ctl) :
-    CallFacts c.bps (ctlDelivs m endT fuel s c) (ctlLoop m endT fuel s c) := by
+    CallFacts c.bps c.addAt (ctlDelivs m endT fuel s c) (ctlLoop m endT fuel s c) := by
   induction fuel generalizing s c with
   | zero =>
-    refine ⟨?_, ?_⟩
+    refine ⟨?_, ?_, ?_, ?_⟩
     · intro pre p post h; simp [ctlDelivs] at h
     · intro _; simp [ctlLoop]
+    · intro x hx; simp [ctlDelivs] at hx
+    · intro x hx; simp [ctlDelivs] at hx
   | succ fuel ih =>
     simp only [ctlLoop, ctlDelivs]
+    have stop : ∀ (o : Outcome), (o = .paused → shouldPause c = true) →
+        CallFacts c.bps c.addAt ([] : List ((St σ × Ev) × List Bp)) (s, c, o) := by
+      intro o ho
+      exact ⟨by intro pre p post h; simp at h, fun _ => ⟨fun b hb => hb, ho⟩, by intro x hx; simp at hx,
+        by intro x hx; simp at hx⟩
     by_cases h1 : loopCond endT s = true
     · simp only [h1, Bool.not_true, Bool.false_eq_true, if_false]
       by_cases hp : shouldPause c = true
       · simp only [hp, if_true]
-        exact ⟨by intro pre p post h; simp at h, fun _ => ⟨rfl, fun _ => hp⟩⟩
+        exact stop .paused (fun _ => hp)
       · simp only [hp, Bool.false_eq_true, if_false]
         by_cases h2 : (endT.isNone && s.primary == 0) = true
         · simp only [h2, if_true]
-          exact ⟨by intro pre p post h; simp at h, fun _ => ⟨rfl, by simp⟩⟩
+          exact stop .complete (by simp)
         · have h2' : (endT.isNone && s.primary == 0) = false := by simpa using h2
           simp only [h2', Bool.false_eq_true, if_false]
           cases hh : s.heap with
-          | nil => exact ⟨by intro pre p post h; simp at h, fun _ => ⟨rfl, by simp⟩⟩
+          | nil => exact stop .complete (by simp)
           | cons x xs =>
             simp only []
             by_cases hproc : ((stepWith m s (minOf x xs)).processed == s.processed) = true
@@ -86,30 +102,51 @@ theorem callFacts (m : Machine σ) (endT : Option Nat) (fuel : Nat) (s : St σ) 
             · simp only [hproc, Bool.false_eq_true, if_false]
               generalize hs' : stepWith m s (minOf x xs) = s'
               generalize he : minOf x xs = e
-              by_cases hhit : (List.filter (Bp.hit s' e) c.bps).isEmpty = true
-              · -- nothing fires on this delivery: continue with the same registered breakpoints
+              generalize hbs : c.bps ++ added c s'.processed = bs
+              by_cases hhit : (List.filter (Bp.hit s' e) bs).isEmpty = true
+              · -- nothing fires on this delivery: continue with the (possibly larger) registry
                 simp only [hhit, if_true]
-                have hnf : ¬ fires c.bps (s', e) := (filter_isEmpty_iff_not_fires c.bps (s', e)).mp hhit
+                have hnf : ¬ fires bs (s', e) := (filter_isEmpty_iff_not_fires bs (s', e)).mp hhit
                 have ih' := ih s' { c with steps := c.steps.map (· - 1),
-                                           pauseReq := c.pauseReq || c.pauseAt.contains s'.processed }
-                refine ⟨?_, ?_⟩
+                                           pauseReq := c.pauseReq || c.pauseAt.contains s'.processed,
+                                           bps := bs }
+                have hsub : ∀ b ∈ c.bps, b ∈ bs := by
+                  intro b hb; rw [← hbs]; exact List.mem_append_left _ hb
+                have hadd : ∀ a ∈ c.addAt, a.1 = s'.processed → a.2 ∈ bs := by
+                  intro a ha hk
+                  rw [← hbs]
+                  apply List.mem_append_right
+                  simp only [added, List.mem_map, List.mem_filter]
+                  exact ⟨a, ⟨ha, by simp [hk]⟩, rfl⟩
+                refine ⟨?_, ?_, ?_, ?_⟩
                 · intro pre p post hD hf
                   cases pre with
                   | nil =>
                     simp only [List.nil_append, List.cons.injEq] at hD
-                    exact absurd (hD.1 ▸ hf) hnf
+                    have h0 := hD.1
+                    subst h0
+                    exact absurd hf hnf
                   | cons q pre' =>
                     simp only [List.cons_append, List.cons.injEq] at hD
                     exact ih'.first pre' p post hD.2 hf
                 · intro hq
-                  exact ih'.quiet (fun p hp' => hq p (List.mem_cons_of_mem _ hp'))
+                  have := ih'.quiet (fun p hp' => hq p (List.mem_cons_of_mem _ hp'))
+                  exact ⟨fun b hb => this.1 b (hsub b hb), this.2⟩
+                · intro y hy b hb
+                  rcases List.mem_cons.mp hy with rfl | hy
+                  · exact hsub b hb
+                  · exact ih'.grow y hy b (hsub b hb)
+                · intro y hy a ha hk
+                  rcases List.mem_cons.mp hy with rfl | hy
+                  · exact hadd a ha hk
+                  · exact ih'.hooked y hy a ha hk
               · -- a breakpoint fires: pause right here
                 simp only [hhit, Bool.false_eq_true, if_false]
-                have hf : fires c.bps (s', e) := by
-                  by_cases hf : fires c.bps (s', e)
+                have hf : fires bs (s', e) := by
+                  by_cases hf : fires bs (s', e)
                   · exact hf
-                  · exact absurd ((filter_isEmpty_iff_not_fires c.bps (s', e)).mpr hf) hhit
-                refine ⟨?_, ?_⟩
+                  · exact absurd ((filter_isEmpty_iff_not_fires bs (s', e)).mpr hf) hhit
+                refine ⟨?_, ?_, ?_, ?_⟩
                 · intro pre p post hD _
                   cases pre with
                   | nil =>
@@ -122,9 +159,20 @@ theorem callFacts (m : Machine σ) (endT : Option Nat) (fuel : Nat) (s : St σ) 
                     have := hD.2
                     simp at this
                 · intro hq
-                  exact absurd hf (hq (s', e) (by simp))
+                  exact absurd hf (hq ((s', e), bs) (by simp))
+                · intro y hy b hb
+                  simp only [List.mem_singleton] at hy
+                  subst hy
+                  rw [← hbs]; exact List.mem_append_left _ hb
+                · intro y hy a ha hk
+                  simp only [List.mem_singleton] at hy
+                  subst hy
+                  rw [← hbs]
+                  apply List.mem_append_right
+                  simp only [added, List.mem_map, List.mem_filter]
+                  exact ⟨a, ⟨ha, by simp [hk]⟩, rfl⟩
     · have h1' : loopCond endT s = false := by simpa using h1
       simp only [h1', Bool.not_false, if_true]
-      exact ⟨by intro pre p post h; simp at h, fun _ => ⟨rfl, by simp⟩⟩
+      exact stop .complete (by simp)
 
 end HappyModel.C04
